@@ -21,7 +21,9 @@ RULE = (
     "FunctionDef requires each stamp exactly once, each test as the condition of exactly one If, "
     "the multiset of control-variable assignments equal to that of the synthetic assignment "
     "blocks, one while per loop region, codegen() entered exactly once per block (M-s2a), the "
-    "output to unparse and compile, and every newly bound name to lie in __scfg_*__. distinct = "
+    "output to unparse and compile, and every newly bound name to lie in __scfg_*__; the same "
+    "graph is emitted a second time by a fresh transformer and a third time by ONE transformer "
+    "instance that is reused for all graphs of a worker (same census, same text). distinct = "
     "hash of source / graph; non-trivial = the restructured graph has at least one region and at "
     "least 3 stamped nodes"
 )
@@ -47,6 +49,9 @@ def plan(tier, seed):
             shards.append({"kind": "astgraphs", "cls": cls, "seed": seed, "start": start,
                            "count": min(per, total - start), "tier": tier})
     return shards
+
+
+_SHARED = None
 
 
 def census_case(ctx, acc, case, original_fn, scfg, src_for_s2a):
@@ -80,6 +85,7 @@ def census_case(ctx, acc, case, original_fn, scfg, src_for_s2a):
     from ..hier import dump
     before = dump(scfg, with_payload=True)
     ctx.data.pop("s2a_calls", None)
+    first_text = None
     try:
         fdef2 = SCFG2AST(src_for_s2a, scfg)
         st2, out2 = census.check_census(original_fn, scfg, fdef2, stamped,
@@ -99,6 +105,30 @@ def census_case(ctx, acc, case, original_fn, scfg, src_for_s2a):
     except Exception as e:
         k = exc_key(e)
         ctx.violation("C10", f"second_codegen_raised:{k['type']}@{k['site']}", k)
+    # history on the transformer object: ONE SCFG2ASTTransformer instance is
+    # reused for every graph of this shard (the public class allows it); what it
+    # emits for this graph must not depend on the graphs it emitted before
+    global _SHARED
+    try:
+        from numba_scfg.core.datastructures.ast_transforms import (
+            SCFG2ASTTransformer, unparse_code)
+        if _SHARED is None:
+            _SHARED = SCFG2ASTTransformer()
+        ctx.data.pop("s2a_calls", None)
+        fdef3 = _SHARED.transform(original=unparse_code(src_for_s2a)[0], scfg=scfg)
+        st3, out3 = census.check_census(original_fn, scfg, fdef3, stamped,
+                                        ctx.data.get("s2a_calls"))
+        acc.counters["shared_transformer_passes"] += 1
+        if first_text is not None and out3 != first_text:
+            ctx.violation("C10", "reused_transformer_emits_other_text",
+                          {"first": first_text[:600], "reused": out3[:600]})
+    except Viol as v:
+        ctx.violation("C10", "reused_transformer:" + v.kind, v.detail)
+    except NotImplementedError:
+        ctx.violation("C10", "reused_transformer_refused", None)
+    except Exception as e:
+        k = exc_key(e)
+        ctx.violation("C10", f"reused_transformer_raised:{k['type']}@{k['site']}", k)
     f = features(ctx, scfg, "JLB")
     return f["regions"] > 0 and (len(stamped[0]) + len(stamped[1])) >= 3
 
